@@ -170,6 +170,11 @@ var registry = []HarnessSpec{
 		Desc:   "the EscapeHTML post-pass never truncates or duplicates parts of the document when its buffer has to grow more than once",
 		Bounds: "N in {7,20,48,100}"},
 	// ---- Tier 3: instruction lists emitted by the JIT assemblers (dumped at check time) ----
+	{Prop: "C01", Pkg: mod, PkgName: "sonic", Func: "VerifT3Replay", Tier: "quick", Covers: []string{"empty-or-null", "short", "full", "error"},
+		Asm: "dec_array2_int", T3: "array", T3Bits: 2, ReplayEnv: []string{"VERIF_T3_TYPE=array2_int", "VERIF_T3_KIND=array"},
+		Desc:    "generated [2]int decoder, whole program: on every path that ends without error, null leaves the (prefilled) destination untouched; otherwise each parsed element holds its integer and every other element is zero, as encoding/json does",
+		Bounds:  "instruction list dumped for [2]int; all texts of 0..7 bytes over {[ ] , space 1 n u l}; native vsigned / skip_array are contracts (arbitrary value, arbitrary progress)",
+		Assumes: []string{"native vsigned returns V_INTEGER with an arbitrary value and advances the cursor; skip_array advances the cursor", "runtime.memclrNoHeapPointers zeroes exactly the bytes it is given"}},
 	{Prop: "C01", Pkg: mod, PkgName: "sonic", Func: "VerifT3Replay", Tier: "quick", Covers: []string{"lspace-done"},
 		Asm: "dec_int64", T3: "lspace", ReplayEnv: []string{"VERIF_T3_TYPE=int64"},
 		Desc:    "generated decoder (type int64): the inline white-space skipper of _OP_lspace skips exactly JSON white space and stops at the first other byte, for every input and start offset",
